@@ -385,6 +385,9 @@ func genLossCase(t *rapid.T) *LossCase {
 	c := &LossCase{Codec: rapid.SampledFrom([]string{"h264", "h264avc", "av1", "av1"}).Draw(t, "codec"), Seed: rapid.Uint64().Draw(t, "seed")}
 	c.A = genLossFrame(t, c.Codec, true, "a.")
 	c.B = genLossFrame(t, c.Codec, rapid.IntRange(0, 3).Draw(t, "bfrag") != 0, "b.")
+	if rapid.IntRange(0, 5).Draw(t, "resend") == 0 {
+		c.B = c.A // the sender repeats the very same frame (a re-sent key frame): packets identical to the abandoned ones
+	}
 	if rapid.IntRange(0, 4).Draw(t, "hasa2") == 0 {
 		a2 := genLossFrame(t, c.Codec, true, "a2.")
 		c.A2 = &a2
@@ -433,7 +436,7 @@ func genLossCase(t *rapid.T) *LossCase {
 	return c
 }
 
-const ruleC15 = "rapid draws (codec in {H264Packet Annex-B, H264Packet AVC, AV1Depacketizer}, frame A with at least one fragmented unit packetised by the library's payloader or an independent encoder (AV1: W=0 and counted forms, up to three elements per packet, fragments cut anywhere; H264: also empty fragments, start fragments flagged with the F bit, FU headers with the reserved R bit set and, for units that fit, single FU-As carrying S and E together), optionally a second lossy frame delivered under a drawn mask, frame B of any shape (sometimes starting with an SPS/PPS pair), 0-5 garbage inputs - random strings, stray continuation fragments or damaged copies of A's own packets - interleaved at drawn positions before, inside and after A and always delivered; about one case in 30 additionally delivers an end-less fragment train holding 2^k - {0,1,2,3,100} bytes (k 20-24; AV1 18-21) right before B); for A of up to 10 packets ALL 2^n delivery subsets are enumerated in order (1024 drawn subsets beyond that), each followed by the complete frame B; oracle: for every packet of B the output bytes, error-ness and AV1 Z/Y/N of the used receiver equal those of a fresh receiver fed B only. Non-trivial = case in which some subset leaves a fragment train open (start delivered, end lost) and B contains a fragmented unit; evaluations count cases plus enumerated subsets; distinct = FNV-64 of the JSON case"
+const ruleC15 = "rapid draws (codec in {H264Packet Annex-B, H264Packet AVC, AV1Depacketizer}, frame A with at least one fragmented unit packetised by the library's payloader or an independent encoder (AV1: W=0 and counted forms, up to three elements per packet, fragments cut anywhere; H264: also empty fragments, start fragments flagged with the F bit, FU headers with the reserved R bit set and, for units that fit, single FU-As carrying S and E together), optionally a second lossy frame delivered under a drawn mask, frame B of any shape (sometimes starting with an SPS/PPS pair; one case in six B is frame A once more, packet for packet), 0-5 garbage inputs - random strings, stray continuation fragments or damaged copies of A's own packets - interleaved at drawn positions before, inside and after A and always delivered; about one case in 30 additionally delivers an end-less fragment train holding 2^k - {0,1,2,3,100} bytes (k 20-24; AV1 18-21) right before B); for A of up to 10 packets ALL 2^n delivery subsets are enumerated in order (1024 drawn subsets beyond that), each followed by the complete frame B; oracle: for every packet of B the output bytes, error-ness and AV1 Z/Y/N of the used receiver equal those of a fresh receiver fed B only. Non-trivial = case in which some subset leaves a fragment train open (start delivered, end lost) and B contains a fragmented unit; evaluations count cases plus enumerated subsets; distinct = FNV-64 of the JSON case"
 
 func TestC15(t *testing.T) {
 	r := begin(t, "C15", "fault_enumeration", ruleC15)
